@@ -189,6 +189,26 @@ type Check struct {
 
 var Registry = map[string]*Check{}
 
+// ExplainMore holds the clauses added to a check after its Explain text was written
+// (rules added when a seeded change was missed); FullExplain appends them.
+var ExplainMore = map[string][]string{}
+
+func AddExplain(id, text string) { ExplainMore[id] = append(ExplainMore[id], text) }
+
+func (ch *Check) FullExplain() string {
+	s := ch.Explain
+	if more := ExplainMore[ch.ID]; len(more) > 0 {
+		s += " FURTHER CLAUSES (added with the seeded-change rounds): "
+		for i, m := range more {
+			if i > 0 {
+				s += " "
+			}
+			s += "(" + string(rune('a'+i%26)) + ") " + m
+		}
+	}
+	return s
+}
+
 func Register(ch *Check) { Registry[ch.ID] = ch }
 
 type Result struct {
@@ -288,7 +308,7 @@ func writeEvidence(ch *Check, c *Ctx, res *Result, tier string, seed int, verifD
 	}
 	sort.Strings(fnames)
 	cov := map[string]interface{}{
-		"explanation":         ch.Explain,
+		"explanation":         ch.FullExplain(),
 		"rule":                "obligations are rule instances (rule|function|construct) enumerated from /repo's type-checked SSA on this run; non-trivial = each instance is a distinct construct in the source",
 		"obligations":         len(c.Obls),
 		"discharged":          holds,
